@@ -207,9 +207,16 @@ func (x *Exec) assumeEnsures(s *State, fi *FuncInfo, recv *Value, args []*Value,
 	for _, l := range c.Lets {
 		sc.bound[l.Tag] = x.evalSpec(s, l.Expr, sc)
 	}
+	// the postconditions are known only where the callee's preconditions hold (they are not re-checked at pure call sites)
+	pre := True
+	for _, cl := range c.Clauses {
+		if cl.Kind == "requires" {
+			pre = And(pre, x.evalClause(s, cl, sc))
+		}
+	}
 	for _, cl := range c.Clauses {
 		if cl.Kind == "ensures" && !cl.Internal {
-			s.Assume(x.evalClause(s, cl, sc))
+			s.Assume(Implies(pre, x.evalClause(s, cl, sc)))
 		}
 	}
 }
